@@ -51,7 +51,11 @@ func TestVerifC07Agg(t *testing.T) {
 	for i := 0; i < n; i++ {
 		switch r.Intn(20) {
 		case 0, 1, 2:
-			c07GenHist(out, r)
+			if r.Intn(8) == 0 {
+				c07GenHistI64(out, r)
+			} else {
+				c07GenHist(out, r)
+			}
 		case 3, 4, 5, 6:
 			c07GenColl(out, r)
 		case 7, 8:
@@ -244,6 +248,10 @@ func c07GenHist(out *vOut, r *vRand) {
 		switch {
 		case nb > 0 && r.Intn(2) == 0: // on / next to a boundary
 			v = bounds[r.Intn(nb)] + int64(r.Intn(3)) - 1
+		case kind == "i" && shift == 0 && nv <= 8 && r.Intn(3) == 0:
+			// int64 values that are not binary64 numbers (the sum is an int64, the bucket search rounds); far
+			// from every boundary, and few enough for the exact sum to stay an int64
+			v = vPick(r, []int64{1<<53 + 1, 1<<53 - 1, -(1<<53 + 3), 1<<59 + 1, -(1<<58 + 5), 1<<56 + 127, 3<<55 + 1})
 		case r.Intn(8) == 0:
 			v = vPick(r, []int64{0, 1, -1, 1 << 40, -(1 << 40)})
 		default:
@@ -968,4 +976,38 @@ func c07GenHColl(out *vOut, r *vRand) {
 	} else {
 		c07RunHColl[float64](out, gen, "f", delta, limit, bounds, r.Intn(3) == 0, r.Intn(3) == 0, ops)
 	}
+}
+
+// c07GenHistI64: int64 instrument, boundaries that are binary64 numbers of magnitude >= 2^53 and int64 values
+// next to them that are not (known finding F49: the bucket is found for float64(value)); at most 6 values of
+// magnitude < 2^59, so that the exact sum is an int64.
+func c07GenHistI64(out *vOut, r *vRand) {
+	nb := 1 + r.Intn(3)
+	var bounds []int64
+	for i := 0; i < nb; i++ {
+		e := 53 + r.Intn(6)
+		ulp := int64(1) << uint(e-52)
+		b := int64(1)<<uint(e) + int64(r.Intn(4))*ulp
+		if r.Intn(4) == 0 {
+			b = -b
+		}
+		bounds = append(bounds, b)
+	}
+	if r.Intn(3) == 0 {
+		bounds = append(bounds, int64(r.Intn(100)))
+	}
+	nv := 1 + r.Intn(6)
+	vals := make([]int64, 0, nv)
+	for i := 0; i < nv; i++ {
+		b := bounds[r.Intn(len(bounds))]
+		switch r.Intn(6) {
+		case 0:
+			vals = append(vals, int64(r.Intn(50)-25))
+		case 1:
+			vals = append(vals, b)
+		default:
+			vals = append(vals, b+int64(r.Intn(9)-4))
+		}
+	}
+	c07RunHist(out, "i64bnd", "i", 0, bounds, vals)
 }
